@@ -30,6 +30,8 @@ int vs_exc; bool g_hit_end;
 
 /* libc models used by the match_* helpers (trusted; contracts are what the C standard gives) */
 extern size_t g_k;                                   /* ghost: one arbitrary but fixed index */
+extern size_t g_j;                                   /* ghost: witness index of a mismatch */
+#define VS_LOW(c) (((c) >= 'A' && (c) <= 'Z') ? (c) + 32 : (c))   /* vs_tolower as an expression (loop invariants cannot call) */
 int vs_memcmp(const void *a, const void *b, size_t n)
 __CPROVER_requires(n <= MAXLEN && __CPROVER_r_ok(a, n) && __CPROVER_r_ok(b, n))
 __CPROVER_assigns()
@@ -50,7 +52,7 @@ __CPROVER_requires(g_w <= MAXLEN && __CPROVER_r_ok(p, g_w + 1) && VS_SCAN_STOPS(
 __CPROVER_requires(__CPROVER_w_ok(end, sizeof(*end)))
 __CPROVER_assigns(*end)
 __CPROVER_ensures(IN_RANGE(p, *end, p + g_w));
-size_t g_k; size_t g_w;
+size_t g_k; size_t g_w; size_t g_j;
 /* memcpy: reads [src, src+n), writes [dst, dst+n); content through the ghost sample g_k */
 void *vs_memcpy(void *dst, const void *src, size_t n)
 __CPROVER_requires(n <= 4096 && __CPROVER_w_ok(dst, n) && __CPROVER_r_ok(src, n))
@@ -196,13 +198,19 @@ FUNCTIONS = [
      'exit_ghost': 'if (!vs_ret && cursor->buf->len - cursor->buf->pos < len) g_hit_end = 1;',
      'contract': '''
         requires CUR_PRE(cursor) && len <= MAXLEN && LIT_PRE(str, len)
-        assigns POS(cursor), g_hit_end
+        assigns POS(cursor), g_hit_end, g_j
         ensures RET ==> (len <= LEN(cursor) - OLD(POS(cursor)) && POS(cursor) == OLD(POS(cursor)) + len)
         ensures !RET ==> POS(cursor) == OLD(POS(cursor))
-        ensures IFF(g_hit_end, OLD(g_hit_end) || (!RET && LEN(cursor) - POS(cursor) < len))''',
+        ensures IFF(g_hit_end, OLD(g_hit_end) || (!RET && LEN(cursor) - POS(cursor) < len))
+        # case-insensitive matching is equality up to ASCII case, position by position (g_k: any position; g_j: the position where a
+        # refused comparison stopped): letters only fold onto letters
+        ensures (RET && cs == Pistache_CaseSensitivity_Insensitive && g_k < len) ==> vs_tolower(str[g_k]) == vs_tolower(BYTE(cursor, OLD(POS(cursor)) + g_k))
+        ensures (!RET && cs == Pistache_CaseSensitivity_Insensitive && len <= LEN(cursor) - POS(cursor)) ==>
+                (g_j < len && vs_tolower(str[g_j]) != vs_tolower(BYTE(cursor, POS(cursor) + g_j)))''',
+     'loop_ghost': {0: 'g_j = i;'},
      'loops': ['''
-        assigns i
-        invariant i <= len
+        assigns i, g_j
+        invariant i <= len && (g_k < i ==> VS_LOW(str[g_k]) == VS_LOW(off[g_k]))
         decreases len - i''']},
     {'q': 'Pistache::match_literal', 'contract': '''
         requires CUR_PRE(cursor)
@@ -277,7 +285,7 @@ PROOFS = [
     {'name': 'cursor_conv', 'enforce': 'Pistache_StreamCursor_conv', 'props': ['C03']},
     {'name': 'revert_ctor', 'enforce': 'Pistache_StreamCursor_Revert_ctor', 'props': ['C01']},
     {'name': 'match_raw', 'enforce': 'Pistache_match_raw', 'replace': [ADV], 'props': ['C01', 'C03']},
-    {'name': 'match_string', 'enforce': 'Pistache_match_string', 'replace': [ADV], 'loops': 'contracts', 'props': ['C01', 'C03']},
+    {'name': 'match_string', 'enforce': 'Pistache_match_string', 'replace': [ADV], 'loops': 'contracts', 'props': ['C01', 'C03', 'C18', 'C17']},
     {'name': 'match_literal', 'enforce': 'Pistache_match_literal', 'replace': [ADV], 'props': ['C01', 'C03']},
     {'name': 'match_until_c', 'enforce': 'Pistache_match_until_c', 'replace': ['Pistache_match_until_il'], 'props': ['C01', 'C03']},
     {'name': 'match_until_il', 'enforce': 'Pistache_match_until_il', 'replace': [ADV, 'Pistache_match_until_il__find'],
